@@ -420,6 +420,7 @@ func (w *World) runInits() []string {
 			work := st.clone()
 			work.regs = map[ssa.Value]*Val{}
 			ctx.unrolled = 0
+			ctx.steps = 0
 			ctx.started = time.Now()
 			ctx.stack = []*ssa.Function{initFn}
 			_, out := ctx.runFunction(work, initFn, nil, nil)
